@@ -12,7 +12,9 @@
 (***************************************************************************)
 EXTENDS Naturals, FiniteSets, TLC
 
-CONSTANTS Paths, Contents, Size, Routes
+CONSTANTS Paths, Contents, Size, Routes, Spellings
+\* Spellings = the ways the caller may write the source and target paths (plain absolute, with a trailing
+\* separator, relative to the working directory): no result may depend on it
 Absent == "-"
 
 VARIABLES src, listing, counts, store, reloaded, fresh, pc, act
@@ -27,9 +29,10 @@ Init == /\ src \in [Paths -> Contents \cup {Absent}] /\ Files(src) # {}
         /\ listing = <<>> /\ counts = [nfiles |-> 0, size |-> 0] /\ store = {} /\ reloaded = <<>>
         /\ fresh = [r \in Routes |-> <<>>] /\ pc = "stage" /\ act = [op |-> "Init"]
 \* build(): the listing pairs every relative path with the digest of its bytes; meta counts files and bytes
-Stage == /\ pc = "stage"
+Stage(sp) ==
+         /\ pc = "stage"
          /\ listing' = Truth(src) /\ counts' = [nfiles |-> Cardinality(Files(src)), size |-> Sum(src, Files(src))]
-         /\ pc' = "transfer" /\ act' = [op |-> "Stage"] /\ UNCHANGED <<src, store, reloaded, fresh>>
+         /\ pc' = "transfer" /\ act' = [op |-> "Stage", spelling |-> sp] /\ UNCHANGED <<src, store, reloaded, fresh>>
 \* transfer(staging -> store, expanded): every listed content and the directory object
 Transfer == /\ pc = "transfer"
             /\ store' = {<<"f", listing[p]>> : p \in DOMAIN listing} \cup {<<"d", listing>>}
@@ -45,7 +48,7 @@ Checkout(r) == /\ pc = "checkout" /\ fresh[r] = <<>>
                /\ act' = [op |-> "Checkout", route |-> r]
                /\ pc' = IF \A q \in Routes \ {r} : fresh[q] # <<>> THEN "done" ELSE "checkout"
                /\ UNCHANGED <<src, listing, counts, store, reloaded>>
-Next == Stage \/ Transfer \/ Reload \/ \E r \in Routes : Checkout(r)
+Next == (\E sp \in Spellings : Stage(sp)) \/ Transfer \/ Reload \/ \E r \in Routes : Checkout(r)
 Spec == Init /\ [][Next]_vars
 
 (******************************* C02 predicates *****************************)
